@@ -88,9 +88,21 @@ macro_rules! tree_pfu {
 /// library were (by mistake) to denote the same type: the harness must keep compiling in that case.
 macro_rules! wrapper {
     ($alias:ident) => {
-        #[derive(Clone, PartialEq, Debug, Default, serde::Serialize, serde::Deserialize)]
+        #[derive(PartialEq, Debug, Default, serde::Serialize, serde::Deserialize)]
         #[serde(transparent)]
         pub struct $alias<T>(pub qwt::$alias<T>);
+        // Clone by hand so that clone_from reaches the library's own clone_from (a derive only forwards clone)
+        impl<T> Clone for $alias<T>
+        where
+            qwt::$alias<T>: Clone,
+        {
+            fn clone(&self) -> Self {
+                $alias(self.0.clone())
+            }
+            fn clone_from(&mut self, source: &Self) {
+                self.0.clone_from(&source.0)
+            }
+        }
         impl<T> SpaceUsage for $alias<T>
         where
             qwt::$alias<T>: SpaceUsage,
